@@ -86,6 +86,34 @@ pub fn invalid_sources() -> Vec<(&'static str, String, Option<&'static str>)> {
 }
 
 /// invalid kernels: call / syscall inside a kernel
+/// sources that are malformed in ways the property does not enumerate: the only demand is that
+/// the assembler answers (an error, or a program) and does not panic
+pub fn must_not_panic_sources() -> Vec<(&'static str, String)> {
+    let mut v = vec![];
+    for e in [
+        "*2", "2+", "2*", "+", "(2", "2)", "()", "2**3", "2+*3", "(2+)*3", "-", "2 3", "A+1", "1+(", "/1", "7(0", "2(3)", "(2)(3)", "2//", "//2", "1/0", "1//0", "4S\u{57c}ONST*2", "\u{e9}", "2+\u{1F600}", "((((1",
+        "1))))", "18446744073709551616", "99999999999999999999999", "0x10", "1e3", "1_000", " 1", "1 ",
+    ] {
+        v.push(("malformed-constant", format!("const.A={e}\nbegin push.A end")));
+        v.push(("malformed-constant", format!("const.B=7\nconst.A={e}+B\nbegin push.A end")));
+    }
+    for n in ["a", "A b", "1A", "A-", "", "A=1=2"] {
+        v.push(("malformed-constant-name", format!("const.{n}=3\nbegin push.1 end")));
+    }
+    // header keywords with their pieces missing, alone and in front of a body
+    for k in [
+        "export", "export.", "export.a.", "export.a.b.c", "export.1", "export.a::", "export.::a", "export.a::b->", "export.a::b->1", "proc", "proc.", "proc.a.", "proc.a.x", "proc.a.70000", "proc.a.1.2", "use", "use.", "use.a::",
+        "use.::a", "use.a->", "use.a::b->", "use.a::b->1x", "const", "const.", "const.A", "const.A=", "begin", "begin.", "begin.1", "end", "else", "if", "if.", "if.false", "while", "while.", "while.false", "repeat", "repeat.", "repeat.x",
+        "repeat.4294967296", "#!", "#! doc", "#",
+    ] {
+        v.push(("bare-keyword", k.to_string()));
+        v.push(("bare-keyword", format!("{k}\n    and and and\nend\n")));
+        v.push(("bare-keyword", format!("{k}\nbegin push.1 end\n")));
+        v.push(("bare-keyword", format!("begin {k} push.1 end end\n")));
+    }
+    v
+}
+
 pub fn invalid_kernels() -> Vec<(&'static str, String)> {
     vec![
         ("call-in-kernel", "proc.a push.1 drop end export.k0 call.a end".into()),
@@ -125,6 +153,19 @@ pub fn check_invalid(ctx: &Ctx) {
             }
             Ok(Err(e)) if e.starts_with("kernel:") => Err(Viol::new("C11:setup", e, cj)),
             Ok(Err(_)) => Ok(Info { nontrivial: Some(fp_str(src)), classes: vec![format!("invalid:{class}")], sample: Some(cj), ..Info::default() }),
+        }
+    });
+    let np = must_not_panic_sources();
+    ctx.run_list("must-not-panic", &np, |(class, src)| {
+        let cj = json!({"class": class, "src": src});
+        // as a program and as a library module
+        let as_module = vm::catch(|| assembly::ast::ModuleAst::parse(src).map(|_| ()).map_err(|e| format!("{e}")));
+        if let Err(p) = as_module {
+            return Err(Viol::new(format!("C11:invalid-panics:{class}:{}", crate::diff::panic_site(&p)), format!("malformed module source makes the parser panic: {p}"), cj));
+        }
+        match vm::catch(|| Assembler::default().compile(src).map(|_| ()).map_err(|e| format!("{e}"))) {
+            Err(p) => Err(Viol::new(format!("C11:invalid-panics:{class}:{}", crate::diff::panic_site(&p)), format!("malformed source makes the assembler panic: {p}"), cj)),
+            Ok(r) => Ok(Info { nontrivial: Some(fp_str(src)), classes: vec![format!("{class}:{}", if r.is_ok() { "accepted" } else { "rejected" })], ..Info::default() }),
         }
     });
     let ks = invalid_kernels();
